@@ -116,6 +116,17 @@ def _work(args):
                 via_file = [[m.unit_name, [m.start.line, m.start.column], [m.end.line, m.end.column], m.value] for m in entry.measurements()]
                 if via_file != got[1]:
                     probs.append(f"analysed as a file the program reports {[m[0] for m in via_file]}, as text {[g[0] for g in got[1]]} (marked: {marked})")
+                # ... and the check command's route lists exactly the reported functions longer than 30 lines: a marked
+                # function is not listed by it either (seeded change C17-14: check analyses the file without its comments)
+                from pathlib import Path
+                from codelimit.commands.check import check_file
+                from codelimit.common.CheckResult import CheckResult
+                cr = CheckResult()
+                check_file(Path(path), cr)
+                listed = sorted(m.unit_name for _, ms in cr.file_list for m in ms)
+                want_listed = sorted(g[0] for g in got[1] if g[3] > 30)
+                if listed != want_listed:
+                    probs.append(f"the check command lists {listed}, the reported functions above 30 lines are {want_listed} (marked: {marked})")
             except Exception as ex:
                 probs.append(f"analysing the program as a file raised {type(ex).__name__}: {ex}")
             finally:
